@@ -277,6 +277,12 @@ def check(spec, ctx):
     if not geoms and not np.all(got == fill):
         ctx.fail("no geometries but some cells differ from fill", spec, got.tolist(), fill, kind="fill")
 
+    # omitted arguments mean the documented defaults: values=1, fill=0, dtype=float32, all_touched=False
+    if geoms:
+        d_out = rasterize(geoms, arr)
+        e_out = rasterize(geoms, arr, values=1, fill=0, dtype=np.float32, all_touched=False)
+        if d_out.dtype != np.float32 or not np.array_equal(d_out.transpose("time", "frequency").values, e_out.transpose("time", "frequency").values):
+            ctx.fail("rasterize with omitted arguments differs from values=1, fill=0, dtype=float32, all_touched=False", spec, None, None, kind="defaults")
     # independent of the template contents
     other = "ramp" if spec["contents"] != "ramp" else "nan"
     arr2, _, _ = template(spec, other)
